@@ -100,120 +100,8 @@ pub fn multiset_le(a: &BTreeMap<(String, String), usize>, b: &BTreeMap<(String, 
 }
 
 // ------------------------------------------------------------------------------------------------
-// C10: structural well-formedness (DESIGN.md Appendix A)
+// C10: structural well-formedness (DESIGN.md Appendix A) — the checker lives in `wf.rs`, a transcription of
+// `lean/Aqua/Trace/WF.lean` (the earlier checker here did not look into nested folds, accepted swapped lore
+// entries and did not group batches by generation)
 
-/// Reads `t[from..to)` as a forest; returns Err(reason) when sizes do not tile.
-fn read_forest(t: &[St], from: usize, to: usize, depth: usize) -> Result<(), String> {
-    if depth > 4000 { return Err("nesting too deep".into()); }
-    let mut p = from;
-    while p < to {
-        match &t[p] {
-            St::Par(l, r) => {
-                let (l, r) = (*l as usize, *r as usize);
-                let end = p + 1 + l + r;
-                if end > to { return Err(format!("par at {p} with sizes ({l},{r}) exceeds its parent's range ending at {to}")); }
-                read_forest(t, p + 1, p + 1 + l, depth + 1).map_err(|e| format!("in left part of par at {p}: {e}"))?;
-                read_forest(t, p + 1 + l, end, depth + 1).map_err(|e| format!("in right part of par at {p}: {e}"))?;
-                p = end;
-            }
-            St::Fold(lore) => {
-                let total: usize = lore.iter().map(|(_, b, a)| (b.1 + a.1) as usize).sum();
-                let end = p + 1 + total;
-                if end > to { return Err(format!("fold at {p} covering {total} states exceeds its parent's range ending at {to}")); }
-                check_fold(t, p, lore, depth)?;
-                p = end;
-            }
-            _ => p += 1,
-        }
-    }
-    if p != to { return Err(format!("entries end at {p}, expected {to}")); }
-    Ok(())
-}
-
-fn check_fold(t: &[St], f: usize, lore: &[(u64, (u64, u64), (u64, u64))], depth: usize) -> Result<(), String> {
-    // the 2n ranges must tile [f+1, f+1+total) without gap or overlap
-    let mut ranges: Vec<(usize, usize)> = vec![];
-    for (vp, b, a) in lore {
-        ranges.push((b.0 as usize, b.1 as usize));
-        ranges.push((a.0 as usize, a.1 as usize));
-        let vp = *vp as usize;
-        if vp >= t.len() { return Err(format!("fold at {f}: value position {vp} is outside the trace")); }
-        match &t[vp] {
-            St::Ap(_) | St::Stream(..) => {}
-            other => return Err(format!("fold at {f}: value position {vp} points at {other:?}, not a stream value entry")),
-        }
-        if vp >= b.0 as usize { return Err(format!("fold at {f}: value position {vp} is not before its iteration starting at {}", b.0)); }
-    }
-    let mut sorted = ranges.clone();
-    sorted.sort();
-    let mut cursor = f + 1;
-    for (begin, len) in sorted.iter().filter(|(_, l)| *l > 0) {
-        if *begin != cursor { return Err(format!("fold at {f}: iteration ranges leave a gap or overlap at {cursor} (next range starts at {begin})")); }
-        cursor += len;
-    }
-    // empty ranges must lie inside [f+1, end]
-    let end = cursor;
-    for (begin, len) in &ranges { if *len == 0 && (*begin < f + 1 || *begin > end) { return Err(format!("fold at {f}: empty range positioned at {begin} outside [{},{}]", f + 1, end)); } }
-    // frames: group lore entries into batches B1..Bk Ak..A1; read every frame as a forest with inner frames as units
-    // a frame of iteration i is B_i ++ frame_{i+1} ++ A_i; we verify nesting by reading B_i ++ (skip inner) ++ A_i
-    let n = lore.len();
-    let mut i = 0;
-    while i < n {
-        // find the batch: consecutive entries with begin B_{j+1} = end B_j
-        let mut k = i;
-        while k + 1 < n && lore[k + 1].1 .0 == lore[k].1 .0 + lore[k].1 .1 && lore[k + 1].2 .0 + lore[k + 1].2 .1 == lore[k].2 .0 { k += 1; }
-        // innermost frame k: B_k ++ A_k contiguous
-        for j in (i..=k).rev() {
-            let (b, a) = (lore[j].1, lore[j].2);
-            let (bb, bl, ab, al) = (b.0 as usize, b.1 as usize, a.0 as usize, a.1 as usize);
-            // the frame is [bb, ab+al); inner frame (if any) is [bb+bl, ab)
-            let inner = if j < k { Some((bb + bl, ab)) } else { None };
-            read_frame(t, bb, ab + al, inner, depth + 1).map_err(|e| format!("fold at {f}, iteration {j}: {e}"))?;
-        }
-        i = k + 1;
-    }
-    Ok(())
-}
-
-/// read [from,to) as a forest where `skip` is an opaque unit
-fn read_frame(t: &[St], from: usize, to: usize, skip: Option<(usize, usize)>, depth: usize) -> Result<(), String> {
-    if depth > 4000 { return Err("nesting too deep".into()); }
-    let mut p = from;
-    while p < to {
-        if let Some((s, e)) = skip { if p == s && e > s { p = e; continue; } }
-        match &t[p] {
-            St::Par(l, r) => {
-                let (l, r) = (*l as usize, *r as usize);
-                let end = p + 1 + l + r;
-                if end > to { return Err(format!("par at {p} with sizes ({l},{r}) exceeds the range ending at {to}")); }
-                read_frame(t, p + 1, p + 1 + l, skip, depth + 1)?;
-                read_frame(t, p + 1 + l, end, skip, depth + 1)?;
-                p = end;
-            }
-            St::Fold(lore) => {
-                let total: usize = lore.iter().map(|(_, b, a)| (b.1 + a.1) as usize).sum();
-                if p + 1 + total > to { return Err(format!("fold at {p} exceeds the range ending at {to}")); }
-                p += 1 + total;
-            }
-            _ => p += 1,
-        }
-        if let Some((s, e)) = skip { if p > s && p < e { return Err(format!("an entry straddles the inner iteration [{s},{e})")); } }
-    }
-    if p != to { return Err(format!("entries end at {p}, expected {to}")); }
-    Ok(())
-}
-
-pub fn wf_trace(t: &[St]) -> Result<(), String> {
-    for (i, s) in t.iter().enumerate() {
-        match s {
-            St::Ap(g) => {
-                if g.len() != 1 { return Err(format!("ap at {i} has {} generations", g.len())); }
-                if g[0] == GENERATION_STUB { return Err(format!("ap at {i} carries the placeholder generation")); }
-            }
-            St::Stream(_, g) if *g == GENERATION_STUB => return Err(format!("stream value at {i} carries the placeholder generation")),
-            St::Unknown(x) => return Err(format!("unknown state at {i}: {x}")),
-            _ => {}
-        }
-    }
-    read_forest(t, 0, t.len(), 0)
-}
+pub fn wf_trace(t: &[St]) -> Result<(), String> { crate::wf::wf_trace(t) }
